@@ -19,6 +19,7 @@ pub mod c16;
 pub mod c17;
 pub mod c18;
 pub mod c20;
+pub mod backlog;
 pub mod product;
 pub mod queue;
 pub mod srvq;
